@@ -218,6 +218,7 @@ package primitive
 //@ func WriteString
 //@   prop C03, C02
 //@   assigns wstream(dest)
+//@   ensures inmem: inmemory(dest) ==> result == nil
 //@   let w0 = written(dest)
 //@   ensures len: result == nil ==> written(dest) == old(written(dest)) + LengthOfString(s)
 //@   ensures length: result == nil && len(s) <= 65535 ==> wbe2(dest, w0) == uint16(len(s))
@@ -226,11 +227,13 @@ package primitive
 //@   prop C02, C04
 //@   assigns rstream(source)
 //@   let p0 = pos(source)
+//@   ensures inmem: inmemory(source) && p0 + 2 <= avail(source) && p0 + 2 + int(rbe2(source, p0)) <= avail(source) ==> result1 == nil
 //@   ensures length: result1 == nil ==> len(result0) == int(rbe2(source, p0)) && pos(source) == p0 + 2 + len(result0)
 //@   ensures content: result1 == nil ==> forall k int :: 0 <= k && k < len(result0) ==> result0[k] == rbyte(source, p0 + 2 + k)
 //@ func WriteLongString
 //@   prop C03, C02
 //@   assigns wstream(dest)
+//@   ensures inmem: inmemory(dest) ==> result == nil
 //@   let w0 = written(dest)
 //@   ensures len: result == nil ==> written(dest) == old(written(dest)) + LengthOfLongString(s)
 //@   ensures length: result == nil && len(s) <= 2147483647 ==> wbe4(dest, w0) == uint32(len(s))
@@ -239,12 +242,14 @@ package primitive
 //@   prop C02, C04
 //@   assigns rstream(source)
 //@   let p0 = pos(source)
+//@   ensures inmem: inmemory(source) && p0 + 4 <= avail(source) && (int32(rbe4(source, p0)) <= 0 || p0 + 4 + int(int32(rbe4(source, p0))) <= avail(source)) ==> result1 == nil
 //@   ensures length: result1 == nil && int32(rbe4(source, p0)) >= 0 ==> len(result0) == int(int32(rbe4(source, p0))) && pos(source) == p0 + 4 + len(result0)
 //@   ensures content: result1 == nil && int32(rbe4(source, p0)) >= 0 ==> forall k int :: 0 <= k && k < len(result0) ==> result0[k] == rbyte(source, p0 + 4 + k)
 // [bytes]: an [int] n followed by n bytes, n < 0 for null; [short bytes]: a [short] n followed by n bytes
 //@ func WriteBytes
 //@   prop C03, C02
 //@   assigns wstream(dest)
+//@   ensures inmem: inmemory(dest) ==> result == nil
 //@   let w0 = written(dest)
 //@   ensures len: result == nil ==> written(dest) == old(written(dest)) + LengthOfBytes(b)
 //@   ensures null: result == nil && isnil(b) ==> wbe4(dest, w0) == uint32(0xFFFFFFFF)
@@ -254,12 +259,14 @@ package primitive
 //@   prop C02, C04
 //@   assigns rstream(source)
 //@   let p0 = pos(source)
+//@   ensures inmem: inmemory(source) && p0 + 4 <= avail(source) && (int32(rbe4(source, p0)) <= 0 || p0 + 4 + int(int32(rbe4(source, p0))) <= avail(source)) ==> result1 == nil
 //@   ensures null: result1 == nil && int32(rbe4(source, p0)) < 0 ==> isnil(result0) && pos(source) == p0 + 4
 //@   ensures length: result1 == nil && int32(rbe4(source, p0)) >= 0 ==> !isnil(result0) && len(result0) == int(int32(rbe4(source, p0))) && pos(source) == p0 + 4 + len(result0)
 //@   ensures content: result1 == nil && int32(rbe4(source, p0)) >= 0 ==> forall k int :: 0 <= k && k < len(result0) ==> result0[k] == rbyte(source, p0 + 4 + k)
 //@ func WriteShortBytes
 //@   prop C03, C02
 //@   assigns wstream(dest)
+//@   ensures inmem: inmemory(dest) ==> result == nil
 //@   let w0 = written(dest)
 //@   ensures len: result == nil ==> written(dest) == old(written(dest)) + LengthOfShortBytes(b)
 //@   ensures length: result == nil && len(b) <= 65535 ==> wbe2(dest, w0) == uint16(len(b))
@@ -268,6 +275,7 @@ package primitive
 //@   prop C02, C04
 //@   assigns rstream(source)
 //@   let p0 = pos(source)
+//@   ensures inmem: inmemory(source) && p0 + 2 <= avail(source) && p0 + 2 + int(rbe2(source, p0)) <= avail(source) ==> result1 == nil
 //@   ensures length: result1 == nil ==> !isnil(result0) && len(result0) == int(rbe2(source, p0)) && pos(source) == p0 + 2 + len(result0)
 //@   ensures content: result1 == nil ==> forall k int :: 0 <= k && k < len(result0) ==> result0[k] == rbyte(source, p0 + 2 + k)
 //@ func WriteUuid
